@@ -1,6 +1,18 @@
-//! Verification shim for `tokio::sync::Mutex`: an *uncontended* lock (sequential use only).
-//! `lock()` is synchronous because the encoded sources are de-asynced. Contention, fairness and
-//! poisoning are outside the claim; the property checked on top of this shim is sequential.
+//! Verification shim for `tokio::sync::Mutex`. `lock()` is synchronous because the encoded sources are
+//! de-asynced; the lock is always granted at once. Two uses:
+//! * sequential harnesses: an uncontended lock;
+//! * interference harnesses (C13, concurrency clause): a mutex only protects what happens between one
+//!   `lock()` and the release of its guard. If an operation releases the lock and takes it again, another
+//!   task may have run any complete operation in between. The shim models exactly that: the harness
+//!   may install `verif::ON_RELOCK`, which is called with a pointer to the protected value at the
+//!   second and every later acquisition and plays the other task (one arbitrary atomic operation).
+//!   Fairness, wake-up order and poisoning are outside the claim.
+pub mod verif {
+    /// lock acquisitions since the harness last reset the counter
+    pub static mut LOCKS: u32 = 0;
+    /// the other task: runs at the 2nd, 3rd, ... acquisition, on the protected value
+    pub static mut ON_RELOCK: Option<fn(*mut ())> = None;
+}
 pub mod sync {
     use std::cell::UnsafeCell;
     use std::ops::{Deref, DerefMut};
@@ -14,6 +26,14 @@ pub mod sync {
             Mutex { cell: UnsafeCell::new(t) }
         }
         pub fn lock(&self) -> MutexGuard<'_, T> {
+            unsafe {
+                super::verif::LOCKS += 1;
+                if super::verif::LOCKS >= 2 {
+                    if let Some(f) = super::verif::ON_RELOCK {
+                        f(self.cell.get() as *mut ());
+                    }
+                }
+            }
             MutexGuard { r: unsafe { &mut *self.cell.get() } }
         }
         pub fn try_lock(&self) -> Result<MutexGuard<'_, T>, TryLockError> {
